@@ -5,4 +5,5 @@ Extraction Language OCaml.
 (* N.of_nat / Z.of_nat only bring the number types that the shared OCaml prelude mentions *)
 Extraction "model.ml" organize organize_in_waves process_fetch_tree order_sequence
   respects_deps_b exactly_once_b unique_ids_b acyclic_b run_lr run_rl run_respects_b
-  tree_fetches tree_ids N.of_nat Z.of_nat.
+  tree_fetches tree_ids respects_member_deps_b members_once_b plain_b create_multi_fetch
+  N.of_nat Z.of_nat.
